@@ -7,6 +7,7 @@
   Part 4: constructors.
 -/
 import Arrai.C02.Model
+import Arrai.C02.Assoc
 
 namespace Arrai
 namespace FinSet
@@ -313,15 +314,30 @@ theorem depth_mem_list : ∀ (xs : List Rep) (x : Rep), x ∈ xs → depth x ≤
 
 /-! ### the proved fragment: numbers, the empty tuple, character and byte tuples, strings, byte
 arrays, booleans and generic sets of these, nested arbitrarily -/
+/-- not one of the two tuple types whose hash threads the seed through (`ArrayItemTuple`, `DictEntryTuple`) -/
+def plain : Rep → Bool
+  | .itemT _ _ | .entryT _ _ => false
+  | _ => true
+
 mutual
 def frag : Rep → Bool
   | .num _ | .charT _ _ | .byteT _ _ | .empty | .true_ | .str _ _ _ | .bytes _ _ => true
-  | .gtuple as => as.isEmpty
+  | .gtuple as => fragAttrs as
+  | .itemT _ x => plain x && frag x
+  | .entryT k v => plain k && plain v && frag k && frag v
   | .generic xs => fragList xs
+  | .array vs _ _ => fragOpts vs
   | _ => false
+def fragAttrs : List (String × Rep) → Bool
+  | [] => true
+  | (_, v) :: r => plain v && frag v && fragAttrs r
 def fragList : List Rep → Bool
   | [] => true
   | x :: r => frag x && fragList r
+def fragOpts : List (Option Rep) → Bool
+  | [] => true
+  | some x :: r => plain x && frag x && fragOpts r
+  | none :: r => fragOpts r
 end
 
 theorem fragList_mem : ∀ (xs : List Rep) (x : Rep), fragList xs = true → x ∈ xs → frag x = true
@@ -398,23 +414,40 @@ def ctorTag : Rep → Nat
   | .empty => 6 | .true_ => 7 | .generic _ => 8 | .str _ _ _ => 9 | .bytes _ _ => 10 | .array _ _ _ => 11
   | .dict _ => 12 | .relation _ _ => 13 | .union _ => 14
 
-/-- `(@: number, name: _)` -/
-def isIdxPair (name : String) : V → Bool
-  | .tup [(a, .num _), (b, _)] => a == "@" && b == name
-  | _ => false
+/-- the number inside an optional value -/
+def numOfV : Option V → Option Int
+  | some (.num c) => some c
+  | _ => none
+def numOfR : Option Rep → Option Int
+  | some (.num c) => some c
+  | _ => none
+def okBy (p : Int → Bool) : Option Int → Bool
+  | some c => p c
+  | none => false
+
+/-- the tuple constructor a canonical representation of `.tup l` must have: the specialisation rule
+of `NewTuple` (after repair #20) read off the denotation -/
+def tupKind (l : List (String × V)) : Nat :=
+  if l.length = 2 then
+    match lookupV "@" l with
+    | none => 1
+    | some i =>
+      if (lookupV "@value" l).isSome then 5
+      else if (numOfV (some i)).isSome then
+        (if (lookupV "@item" l).isSome then 4
+         else if okBy inRune (numOfV (lookupV "@char" l)) then 2
+         else if okBy inByte (numOfV (lookupV "@byte" l)) then 3 else 1)
+      else 1
+  else 1
 
 /-- the constructor a canonical representation of a denotation must have (fragment) -/
 def vtag : V → Nat
   | .num _ => 0
-  | .tup [] => 1
-  | .tup as => if isIdxPair "@char" (.tup as) then 2 else if isIdxPair "@byte" (.tup as) then 3 else 1
+  | .tup l => tupKind l
   | .set [] => 6
   | .set [.tup []] => 7
-  | .set (m :: _) => if isIdxPair "@char" m then 9 else if isIdxPair "@byte" m then 10 else 8
-
-theorem isIdxPair_vpair (name name' : String) (i : Int) (x : V) :
-    isIdxPair name' (vpair name (.num i) x) = (name == name') := by
-  simp [isIdxPair, vpair]
+  | .set (.tup l :: _) => (match tupKind l with | 2 => 9 | 3 => 10 | 4 => 11 | _ => 8)
+  | .set _ => 8
 
 theorem head_mk_mem (l : List V) (v : V) (r : List V) (h : mk l = v :: r) : v ∈ l := by
   have : v ∈ mk l := by rw [h]; simp
@@ -436,12 +469,121 @@ theorem den_bytes (b : List Int) (off : Int) : den (.bytes b off) = .set (bytesM
   simp only [den, V.mkSet]
   rw [bytesMembers_eq, mk_of_sorted _ (seqM_sorted _ _ _)]
 
+theorem den_array (vs : List (Option Rep)) (off c : Int) :
+    den (.array vs off c) = .set (seqM "@item" off (denOpts vs)) := by
+  simp only [den, V.mkSet]
+  rw [arrMembers_eq, mk_of_sorted _ (seqM_sorted _ _ _)]
+
+theorem lookupV_denAttrs (k : String) : ∀ (as : List (String × Rep)),
+    lookupV k (denAttrs as) = (lookupAttr k as).map den
+  | [] => rfl
+  | (n, v) :: r => by
+    simp only [denAttrs, lookupV, lookupAttr]
+    split
+    · rfl
+    · exact lookupV_denAttrs k r
+
+theorem denAttrs_length : ∀ (as : List (String × Rep)), (denAttrs as).length = as.length
+  | [] => rfl
+  | (_, _) :: r => by simp [denAttrs, denAttrs_length r]
+
+theorem denAttrs_names : ∀ (as : List (String × Rep)), (denAttrs as).map (·.1) = namesOf as
+  | [] => rfl
+  | (_, _) :: r => by simp [denAttrs, namesOf, denAttrs_names r]
+
+theorem mkAttrs_names_sub : ∀ (l : List (String × V)) (p : String × V), p ∈ mkAttrs l → p.1 ∈ l.map (·.1)
+  | [], p, h => by simp [mkAttrs] at h
+  | (n, v) :: r, p, h => by
+    have h' : p ∈ V.insAttr n v (mkAttrs r) := h
+    rcases mem_insAttr_name n v _ p h' with e | hp
+    · simp [e]
+    · have := mkAttrs_names_sub r p hp
+      simp only [List.map_cons, List.mem_cons]; exact Or.inr this
+
+theorem length_insAttr_notin (n : String) (v : V) : ∀ (l : List (String × V)), (∀ p, p ∈ l → p.1 ≠ n) →
+    (V.insAttr n v l).length = l.length + 1
+  | [], _ => by simp [V.insAttr]
+  | (m, w) :: r, h => by
+    have hm : n ≠ m := fun e => h (m, w) (by simp) e.symm
+    simp only [V.insAttr]
+    split
+    · simp
+    · simp only [hm, if_false, List.length_cons]
+      rw [length_insAttr_notin n v r (fun p hp => h p (List.mem_cons_of_mem _ hp))]
+
+theorem length_mkAttrs : ∀ (l : List (String × V)), (l.map (·.1)).Nodup → (mkAttrs l).length = l.length
+  | [], _ => rfl
+  | (n, v) :: r, h => by
+    simp only [List.map_cons, List.nodup_cons] at h
+    show (V.insAttr n v (mkAttrs r)).length = _
+    rw [length_insAttr_notin n v _ (fun p hp e => h.1 (by rw [← e]; exact mkAttrs_names_sub r p hp)),
+      length_mkAttrs r h.2]
+    simp
+
+theorem numOfV_den (o : Option Rep) : numOfV (o.map den) = numOfR o := by
+  cases o with
+  | none => rfl
+  | some x => cases x <;> simp [numOfV, numOfR, den, vpair, V.mkTup, V.mkSet]
+
+/-- a canonical generic tuple does not denote one of the sugar tuples -/
+theorem tupKind_gtuple (as : List (String × Rep)) (hw : wf (.gtuple as) = true) :
+    tupKind (mkAttrs (denAttrs as)) = 1 := by
+  simp only [wf, Bool.and_eq_true, decide_eq_true_eq, Bool.not_eq_true'] at hw
+  obtain ⟨⟨hnd, _⟩, hsp⟩ := hw
+  have hlen : (mkAttrs (denAttrs as)).length = as.length := by
+    rw [length_mkAttrs _ (by rw [denAttrs_names]; exact hnd), denAttrs_length]
+  have L : ∀ k, lookupV k (mkAttrs (denAttrs as)) = (lookupAttr k as).map den := fun k => by
+    rw [lookupV_mkAttrs, lookupV_denAttrs]
+  unfold tupKind
+  rw [hlen]
+  by_cases h2 : as.length = 2
+  · simp only [h2, if_true]
+    rw [L "@", L "@value", L "@item", L "@char", L "@byte", numOfV_den, numOfV_den]
+    unfold specialisable at hsp
+    simp only [h2, beq_self_eq_true, Bool.true_and] at hsp
+    cases hi : lookupAttr "@" as with
+    | none => simp
+    | some i =>
+      rw [hi] at hsp
+      simp only [Bool.or_eq_false_iff] at hsp
+      obtain ⟨hv, hrest⟩ := hsp
+      have hv' : ((lookupAttr "@value" as).map den).isSome = false := by simpa using hv
+      simp only [Option.map_some, hv', Bool.false_eq_true, if_false]
+      have hn : numOfV (some (den i)) = numOfR (some i) := numOfV_den (some i)
+      rw [hn]
+      cases i with
+      | num k =>
+        simp only [Bool.or_eq_false_iff] at hrest
+        obtain ⟨⟨hit, hch⟩, hby⟩ := hrest
+        have hit' : ((lookupAttr "@item" as).map den).isSome = false := by simpa using hit
+        have hch' : okBy inRune (numOfR (lookupAttr "@char" as)) = false := by
+          cases hc : lookupAttr "@char" as with
+          | none => rfl
+          | some x => rw [hc] at hch; cases x <;> simp_all [okBy, numOfR]
+        have hby' : okBy inByte (numOfR (lookupAttr "@byte" as)) = false := by
+          cases hc : lookupAttr "@byte" as with
+          | none => rfl
+          | some x => rw [hc] at hby; cases x <;> simp_all [okBy, numOfR]
+        have h0 : (numOfR (some (Rep.num k))).isSome = true := rfl
+        simp [h0, hit', hch', hby']
+      | _ => simp [numOfR]
+  · simp [h2]
+
 theorem vtag_den (a : Rep) (hw : wf a = true) (hf : frag a = true) : vtag (den a) = ctorTag a := by
   cases a <;> simp [frag] at hf
   case num n => simp [den, vtag, ctorTag]
-  case gtuple as => subst hf; simp [den, denAttrs, V.mkTup, vtag, ctorTag]
-  case charT i c => simp [den, vtag, ctorTag, vpair, isIdxPair]
-  case byteT i c => simp [den, vtag, ctorTag, vpair, isIdxPair]
+  case gtuple as =>
+    rw [den, mkTup_eq]
+    simp only [vtag, ctorTag]
+    exact tupKind_gtuple as hw
+  case charT i c =>
+    have : inRune c = true := by simpa [wf] using hw
+    simp [den, vtag, ctorTag, vpair, tupKind, lookupV, numOfV, okBy, this]
+  case byteT i c =>
+    have : inByte c = true := by simpa [wf] using hw
+    simp [den, vtag, ctorTag, vpair, tupKind, lookupV, numOfV, okBy, this]
+  case itemT i x => simp [den, vtag, ctorTag, vpair, tupKind, lookupV, numOfV, okBy]
+  case entryT k v => simp [den, vtag, ctorTag, vpair, tupKind, lookupV, numOfV, okBy]
   case empty => simp [den, vtag, ctorTag]
   case true_ => simp [den, vtag, ctorTag]
   case str s off holes =>
@@ -452,13 +594,27 @@ theorem vtag_den (a : Rep) (hw : wf a = true) (hf : frag a = true) : vtag (den a
     | cons c r =>
       have hc : ¬ c < 0 := by
         have := hw.1.1.1; simp [headNonneg] at this; omega
-      simp [strMembers, hc, vtag, ctorTag, vpair, isIdxPair]
+      have hr : inRune c = true := by
+        have := hw.1.2; simp at this
+        simp [inRune]; omega
+      simp [strMembers, hc, vtag, ctorTag, vpair, tupKind, lookupV, numOfV, okBy, hr]
   case bytes b off =>
     rw [den_bytes]
     simp only [wf, Bool.and_eq_true] at hw
     cases b with
     | nil => simp at hw
-    | cons c r => simp [bytesMembers, vtag, ctorTag, vpair, isIdxPair]
+    | cons c r =>
+      have hr : inByte c = true := by have := hw.2; simp at this; exact this.1
+      simp [bytesMembers, vtag, ctorTag, vpair, tupKind, lookupV, numOfV, okBy, hr]
+  case array vs off c =>
+    rw [den_array]
+    simp only [wf, Bool.and_eq_true] at hw
+    cases vs with
+    | nil => simp [headSome] at hw
+    | cons o r =>
+      cases o with
+      | none => simp [headSome] at hw
+      | some x => simp [denOpts, seqM, vtag, ctorTag, vpair, tupKind, lookupV, numOfV, okBy]
   case generic xs =>
     simp only [wf, Bool.and_eq_true, Bool.not_eq_true', decide_eq_true_eq] at hw
     obtain ⟨⟨⟨⟨hne, hwl⟩, hgm⟩, hnd⟩, hnt⟩ := hw
@@ -475,12 +631,12 @@ theorem vtag_den (a : Rep) (hw : wf a = true) (hf : frag a = true) : vtag (den a
       have hg : genericMember x = true := by
         have := List.all_eq_true.1 hgm x hx; exact this
       rcases genericMember_den hg with ⟨n, hn⟩ | ⟨l, hl⟩ | ht
-      · rw [← e, hn]; simp [vtag, isIdxPair]
-      · rw [← e, hl]; simp [vtag, isIdxPair]
+      · rw [← e, hn]; simp [vtag]
+      · rw [← e, hl]; simp [vtag]
       · -- v = () : then the set is not {()} because members are distinct and the list is not [()]
         rw [← e, ht]
         cases r with
-        | cons w r' => simp [vtag, isIdxPair]
+        | cons w r' => simp [vtag, tupKind]
         | nil =>
           exfalso
           have hlen : (mk (denList xs)).length = (denList xs).length := length_mk_of_nodup _ hnd
@@ -496,7 +652,6 @@ theorem vtag_den (a : Rep) (hw : wf a = true) (hf : frag a = true) : vtag (den a
                 rw [← this, ← e, ht]
               | cons _ _ => simp at hlen
           simp [this] at hnt
-
 
 /-! ### strings and byte arrays: canonical forms are determined by the denotation -/
 
@@ -604,15 +759,33 @@ theorem numsV_inj (l l' : List Int) : numsV l = numsV l' ↔ l = l' := by
         rw [h.1, ih r' h.2]
   · intro h; rw [h]
 
-/-! ### generic sets: the XOR of member hashes is the set of member atoms -/
+/-! ### hashes of plain fragment values are single atoms carrying their seed -/
 
-def atomOf (x : Rep) : V := (hashG true x []).headD (.num 0)
+def atomAt (x : Rep) (s : HV) : V := (hashG true x s).headD (.num 0)
+abbrev atomOf (x : Rep) : V := atomAt x []
 
 theorem hxor_nil_right (x : V) : hxor [x] [] = [x] := by
   simp [hxor, symdiff, diff, FinSet.union, ins]
 
-theorem hash_singleton (x : Rep) (hf : frag x = true) : hashG true x [] = [atomOf x] := by
-  cases x <;> simp [frag] at hf <;> simp [atomOf, hashG, hfin, hatom]
+theorem hash_singleton (x : Rep) (hf : frag x = true) (hp : plain x = true) (s : HV) :
+    hashG true x s = [atomAt x s] := by
+  cases x <;> simp [frag, plain] at hf hp <;> simp [atomAt, hashG, hfin, hatom]
+
+theorem atomAt_seed (x : Rep) (hf : frag x = true) (hp : plain x = true) (s : HV) :
+    ∃ t p, atomAt x s = .tup [(t, p), ("seed", .set s)] := by
+  cases x <;> simp [frag, plain] at hf hp <;> simp [atomAt, hashG, hfin, hatom]
+
+theorem atomAt_ne_mapC (y : Rep) (hf : frag y = true) (hp : plain y = true) (s : HV) (p q : V) :
+    atomAt y s ≠ .tup [("mapC", p), ("seed", q)] := by
+  cases y <;> simp [frag, plain] at hf hp <;> simp [atomAt, hashG, hfin, hatom]
+
+theorem atomAt_seed_inj (x y : Rep) (hx : frag x = true) (px : plain x = true) (hy : frag y = true)
+    (py : plain y = true) (s s' : HV) (h : atomAt x s = atomAt y s') : s = s' := by
+  obtain ⟨t, p, e⟩ := atomAt_seed x hx px s
+  obtain ⟨t', p', e'⟩ := atomAt_seed y hy py s'
+  rw [e, e'] at h
+  simp at h
+  exact h.2
 
 theorem nodup_map_of {α β γ} (f : α → β) (g : α → γ) : ∀ (l : List α),
     (∀ x, x ∈ l → ∀ y, y ∈ l → f x = f y → g x = g y) → (l.map g).Nodup → (l.map f).Nodup
@@ -628,18 +801,6 @@ theorem nodup_map_of {α β γ} (f : α → β) (g : α → γ) : ∀ (l : List 
 theorem denList_eq_map : ∀ (xs : List Rep), denList xs = xs.map den
   | [] => rfl
   | x :: r => by simp [denList, denList_eq_map r]
-
-theorem xorList_eq_mk : ∀ (xs : List Rep), fragList xs = true → (xs.map atomOf).Nodup →
-    xorList true xs = mk (xs.map atomOf)
-  | [], _, _ => rfl
-  | x :: r, hf, hn => by
-    simp only [fragList, Bool.and_eq_true] at hf
-    simp only [List.map_cons, List.nodup_cons] at hn
-    simp only [xorList, List.map_cons]
-    rw [hash_singleton x hf.1, xorList_eq_mk r hf.2 hn.2]
-    have hx : atomOf x ∉ mk (r.map atomOf) := fun h => hn.1 ((mem_mk _ _).1 h)
-    rw [hxor, symdiff_singleton _ _ (sorted_mk _) hx]
-    rfl
 
 /-- transfer of "same image set" between two maps that identify the same pairs -/
 theorem map_mem_transfer {α β γ} (f : α → β) (g : α → γ) (l₁ l₂ : List α)
@@ -667,49 +828,190 @@ theorem map_mem_transfer {α β γ} (f : α → β) (g : α → γ) (l₁ l₂ :
       obtain ⟨x, hx, e'⟩ := List.mem_map.1 ((hg (g y)).2 (List.mem_map.2 ⟨y, hy, rfl⟩))
       exact List.mem_map.2 ⟨x, hx, by rw [← e]; exact (h x hx y hy).2 e'⟩
 
+/-! ### a generic XOR over a list of (value, seed) pairs -/
 
-theorem atomOf_eq_iff (x y : Rep) (hx : frag x = true) (hy : frag y = true) :
-    atomOf x = atomOf y ↔ hashG true x [] = hashG true y [] := by
-  rw [hash_singleton x hx, hash_singleton y hy]; simp
+/-- XOR of `hash x s` over a list of (value, seed) pairs -/
+def xorPairs : List (Rep × HV) → HV
+  | [] => []
+  | (x, s) :: r => hxor (hashG true x s) (xorPairs r)
 
-theorem atoms_nodup (xs : List Rep) (hf : fragList xs = true) (hn : (denList xs).Nodup)
+def goodPair (p : Rep × HV) : Prop := frag p.1 = true ∧ plain p.1 = true
+
+theorem xorPairs_eq_mk : ∀ (l : List (Rep × HV)), (∀ p, p ∈ l → goodPair p) →
+    (l.map (fun p => atomAt p.1 p.2)).Nodup → xorPairs l = mk (l.map (fun p => atomAt p.1 p.2))
+  | [], _, _ => rfl
+  | (x, s) :: r, hg, hn => by
+    simp only [List.map_cons, List.nodup_cons] at hn
+    simp only [xorPairs, List.map_cons]
+    have gx := hg (x, s) (by simp)
+    rw [hash_singleton x gx.1 gx.2 s, xorPairs_eq_mk r (fun p hp => hg p (List.mem_cons_of_mem _ hp)) hn.2]
+    have hx : atomAt x s ∉ mk (r.map (fun p => atomAt p.1 p.2)) := fun h => hn.1 ((mem_mk _ _).1 h)
+    rw [hxor, symdiff_singleton _ _ (sorted_mk _) hx]
+    rfl
+
+theorem xorList_eq_pairs : ∀ (xs : List Rep), xorList true xs = xorPairs (xs.map (fun x => (x, [])))
+  | [] => rfl
+  | x :: r => by simp [xorList, xorPairs, xorList_eq_pairs r]
+
+/-- present items of an array with their indices -/
+def idxItems (off : Int) : List (Option Rep) → List (Int × Rep)
+  | [] => []
+  | some x :: r => (off, x) :: idxItems (off + 1) r
+  | none :: r => idxItems (off + 1) r
+
+def intSeed (i : Int) (s : HV) : HV := hatom "int" (.num i) s
+
+theorem xorOpts_eq_pairs : ∀ (vs : List (Option Rep)) (off : Int) (s : HV),
+    xorOpts true off vs s = xorPairs ((idxItems off vs).map (fun p => (p.2, intSeed p.1 s)))
+  | [], _, _ => rfl
+  | some x :: r, off, s => by simp [xorOpts, idxItems, xorPairs, intSeed, xorOpts_eq_pairs r]
+  | none :: r, off, s => by simp [xorOpts, idxItems, xorOpts_eq_pairs r]
+
+theorem seqM_eq_idx : ∀ (vs : List (Option Rep)) (off : Int),
+    seqM "@item" off (denOpts vs) = (idxItems off vs).map (fun p => vpair "@item" (.num p.1) (den p.2))
+  | [], _ => rfl
+  | some x :: r, off => by simp [denOpts, seqM, idxItems, seqM_eq_idx r]
+  | none :: r, off => by simp [denOpts, seqM, idxItems, seqM_eq_idx r]
+
+theorem idxItems_ge : ∀ (vs : List (Option Rep)) (off : Int) (p : Int × Rep), p ∈ idxItems off vs → off ≤ p.1
+  | [], _, _, h => by simp [idxItems] at h
+  | some x :: r, off, p, h => by
+    simp only [idxItems, List.mem_cons] at h
+    rcases h with h | h
+    · subst h; exact Int.le_refl _
+    · have := idxItems_ge r (off + 1) p h; omega
+  | none :: r, off, p, h => by
+    simp only [idxItems] at h
+    have := idxItems_ge r (off + 1) p h; omega
+
+theorem idxItems_idx_nodup : ∀ (vs : List (Option Rep)) (off : Int), ((idxItems off vs).map (·.1)).Nodup
+  | [], _ => by simp [idxItems]
+  | some x :: r, off => by
+    simp only [idxItems, List.map_cons, List.nodup_cons]
+    refine ⟨?_, idxItems_idx_nodup r (off + 1)⟩
+    intro h
+    obtain ⟨p, hp, e⟩ := List.mem_map.1 h
+    have := idxItems_ge r (off + 1) p hp
+    omega
+  | none :: r, off => by
+    simp only [idxItems]
+    exact idxItems_idx_nodup r (off + 1)
+
+theorem idxItems_mem : ∀ (vs : List (Option Rep)) (off : Int) (p : Int × Rep), p ∈ idxItems off vs → some p.2 ∈ vs
+  | [], _, _, h => by simp [idxItems] at h
+  | some x :: r, off, p, h => by
+    simp only [idxItems, List.mem_cons] at h
+    rcases h with h | h
+    · subst h; simp
+    · exact List.mem_cons_of_mem _ (idxItems_mem r (off + 1) p h)
+  | none :: r, off, p, h => by
+    simp only [idxItems] at h
+    exact List.mem_cons_of_mem _ (idxItems_mem r (off + 1) p h)
+
+theorem fragOpts_mem : ∀ (vs : List (Option Rep)) (x : Rep), fragOpts vs = true → some x ∈ vs →
+    plain x = true ∧ frag x = true
+  | [], _, _, h => by simp at h
+  | some y :: r, x, hf, h => by
+    simp only [fragOpts, Bool.and_eq_true] at hf
+    simp only [List.mem_cons, Option.some.injEq] at h
+    rcases h with h | h
+    · subst h; exact hf.1
+    · exact fragOpts_mem r x hf.2 h
+  | none :: r, x, hf, h => by
+    simp only [fragOpts] at hf
+    simp only [List.mem_cons] at h
+    rcases h with h | h
+    · cases h
+    · exact fragOpts_mem r x hf h
+
+theorem wfOpts_mem : ∀ (vs : List (Option Rep)) (x : Rep), wfOpts vs = true → some x ∈ vs → wf x = true
+  | [], _, _, h => by simp at h
+  | some y :: r, x, hf, h => by
+    simp only [wfOpts, Bool.and_eq_true] at hf
+    simp only [List.mem_cons, Option.some.injEq] at h
+    rcases h with h | h
+    · subst h; exact hf.1
+    · exact wfOpts_mem r x hf.2 h
+  | none :: r, x, hf, h => by
+    simp only [wfOpts] at hf
+    simp only [List.mem_cons] at h
+    rcases h with h | h
+    · cases h
+    · exact wfOpts_mem r x hf h
+
+theorem depth_mem_opts : ∀ (vs : List (Option Rep)) (x : Rep), some x ∈ vs → depth x ≤ depthOpts vs
+  | [], _, h => by simp at h
+  | some y :: r, x, h => by
+    simp only [List.mem_cons, Option.some.injEq] at h
+    rcases h with h | h
+    · subst h; simp [depthOpts]
+    · have := depth_mem_opts r x h
+      simp [depthOpts]; omega
+  | none :: r, x, h => by
+    simp only [List.mem_cons] at h
+    rcases h with h | h
+    · cases h
+    · have := depth_mem_opts r x h
+      simpa [depthOpts] using this
+
+
+/-! ### generic sets: the XOR of member hashes is the set of member atoms -/
+
+theorem xorList_eq_mk (xs : List Rep) (hf : fragList xs = true) (hp : ∀ x, x ∈ xs → plain x = true)
+    (hn : (xs.map atomOf).Nodup) : xorList true xs = mk (xs.map atomOf) := by
+  rw [xorList_eq_pairs, xorPairs_eq_mk]
+  · simp [List.map_map, Function.comp_def]
+  · intro p hp'
+    obtain ⟨x, hx, e⟩ := List.mem_map.1 hp'
+    subst e
+    exact ⟨fragList_mem xs x hf hx, hp x hx⟩
+  · simpa [List.map_map, Function.comp_def] using hn
+
+theorem atomOf_eq_iff (x y : Rep) (hx : frag x = true) (hy : frag y = true) (px : plain x = true)
+    (py : plain y = true) : atomOf x = atomOf y ↔ hashG true x [] = hashG true y [] := by
+  rw [hash_singleton x hx px, hash_singleton y hy py]; simp
+
+theorem atoms_nodup (xs : List Rep) (hf : fragList xs = true) (hp : ∀ x, x ∈ xs → plain x = true)
+    (hn : (denList xs).Nodup)
     (H : ∀ x, x ∈ xs → ∀ y, y ∈ xs → (hashG true x [] = hashG true y [] ↔ den x = den y)) :
     (xs.map atomOf).Nodup := by
   apply nodup_map_of atomOf den xs
   · intro x hx y hy e
-    exact (H x hx y hy).1 ((atomOf_eq_iff x y (fragList_mem xs x hf hx) (fragList_mem xs y hf hy)).1 e)
+    exact (H x hx y hy).1 ((atomOf_eq_iff x y (fragList_mem xs x hf hx) (fragList_mem xs y hf hy) (hp x hx) (hp y hy)).1 e)
   · rw [← denList_eq_map]; exact hn
 
 theorem generic_core (xs ys : List Rep)
     (hfx : fragList xs = true) (hfy : fragList ys = true)
+    (hpx : ∀ x, x ∈ xs → plain x = true) (hpy : ∀ x, x ∈ ys → plain x = true)
     (hnx : (denList xs).Nodup) (hny : (denList ys).Nodup)
     (H : ∀ x, x ∈ xs ++ ys → ∀ y, y ∈ xs ++ ys → (hashG true x [] = hashG true y [] ↔ den x = den y)) :
     (xorList true xs = xorList true ys ↔ mk (denList xs) = mk (denList ys)) ∧
     (mk (denList xs) = mk (denList ys) → xs.length = ys.length) := by
-  have ax := atoms_nodup xs hfx hnx (fun x hx y hy => H x (by simp [hx]) y (by simp [hy]))
-  have ay := atoms_nodup ys hfy hny (fun x hx y hy => H x (by simp [hx]) y (by simp [hy]))
+  have ax := atoms_nodup xs hfx hpx hnx (fun x hx y hy => H x (by simp [hx]) y (by simp [hy]))
+  have ay := atoms_nodup ys hfy hpy hny (fun x hx y hy => H x (by simp [hx]) y (by simp [hy]))
   refine ⟨?_, ?_⟩
-  · rw [xorList_eq_mk xs hfx ax, xorList_eq_mk ys hfy ay, mk_eq_iff, mk_eq_iff, denList_eq_map, denList_eq_map]
+  · rw [xorList_eq_mk xs hfx hpx ax, xorList_eq_mk ys hfy hpy ay, mk_eq_iff, mk_eq_iff, denList_eq_map,
+      denList_eq_map]
     apply map_mem_transfer
     intro x hx y hy
-    rw [atomOf_eq_iff x y (fragList_mem xs x hfx hx) (fragList_mem ys y hfy hy)]
+    rw [atomOf_eq_iff x y (fragList_mem xs x hfx hx) (fragList_mem ys y hfy hy) (hpx x hx) (hpy y hy)]
     exact H x (by simp [hx]) y (by simp [hy])
   · intro h
     have := length_eq_of_same_members (denList xs) (denList ys) hnx hny ((mk_eq_iff _ _).1 h)
     rwa [denList_length, denList_length] at this
 
-theorem xorList_ne_nil (xs : List Rep) (hf : fragList xs = true) (ha : (xs.map atomOf).Nodup) (hne : xs ≠ []) :
-    xorList true xs ≠ [] := by
-  rw [xorList_eq_mk xs hf ha]
+theorem xorList_ne_nil (xs : List Rep) (hf : fragList xs = true) (hp : ∀ x, x ∈ xs → plain x = true)
+    (ha : (xs.map atomOf).Nodup) (hne : xs ≠ []) : xorList true xs ≠ [] := by
+  rw [xorList_eq_mk xs hf hp ha]
   intro h
   have := (mk_eq_nil _).1 h
   cases xs with
   | nil => exact hne rfl
   | cons x r => simp at this
 
-theorem xorList_single (ys : List Rep) (hf : fragList ys = true) (ha : (ys.map atomOf).Nodup) (A : V)
-    (h : xorList true ys = [A]) : ∃ y, ys = [y] ∧ atomOf y = A := by
-  rw [xorList_eq_mk ys hf ha] at h
+theorem xorList_single (ys : List Rep) (hf : fragList ys = true) (hp : ∀ x, x ∈ ys → plain x = true)
+    (ha : (ys.map atomOf).Nodup) (A : V) (h : xorList true ys = [A]) : ∃ y, ys = [y] ∧ atomOf y = A := by
+  rw [xorList_eq_mk ys hf hp ha] at h
   have hlen := length_mk_of_nodup _ ha
   rw [h] at hlen
   cases ys with
@@ -723,45 +1025,521 @@ theorem xorList_single (ys : List Rep) (hf : fragList ys = true) (ha : (ys.map a
       simp at this
       exact this.symm
 
-theorem atomOf_ne_mapC (y : Rep) (hf : frag y = true) (p q : V) :
-    atomOf y ≠ .tup [("mapC", p), ("seed", q)] := by
-  cases y <;> simp [frag] at hf <;> simp [atomOf, hashG, hfin, hatom]
+theorem xorList_mem_atom (ys : List Rep) (hf : fragList ys = true) (hp : ∀ x, x ∈ ys → plain x = true)
+    (ha : (ys.map atomOf).Nodup) (A : V) (h : A ∈ xorList true ys) : ∃ y, y ∈ ys ∧ atomOf y = A := by
+  rw [xorList_eq_mk ys hf hp ha, mem_mk] at h
+  obtain ⟨y, hy, e⟩ := List.mem_map.1 h
+  exact ⟨y, hy, e⟩
 
+/-! ### arrays -/
+
+def arrAtoms (off : Int) (vs : List (Option Rep)) (s : HV) : List V :=
+  (idxItems off vs).map (fun p => atomAt p.2 (intSeed p.1 s))
+
+theorem intSeed_inj (i j : Int) (s s' : HV) : intSeed i s = intSeed j s' ↔ (i = j ∧ s = s') := by
+  simp [intSeed, hatom]
+
+theorem arrAtoms_nodup (off : Int) (vs : List (Option Rep)) (s : HV) (hf : fragOpts vs = true) :
+    (arrAtoms off vs s).Nodup := by
+  apply nodup_map_of (fun p : Int × Rep => atomAt p.2 (intSeed p.1 s)) (·.1) (idxItems off vs)
+  · intro p hp q hq e
+    obtain ⟨pp, pf⟩ := fragOpts_mem vs p.2 hf (idxItems_mem vs off p hp)
+    obtain ⟨qp, qf⟩ := fragOpts_mem vs q.2 hf (idxItems_mem vs off q hq)
+    have := atomAt_seed_inj p.2 q.2 pf pp qf qp _ _ e
+    exact ((intSeed_inj _ _ _ _).1 this).1
+  · exact idxItems_idx_nodup vs off
+
+theorem xorOpts_eq_mk (off : Int) (vs : List (Option Rep)) (s : HV) (hf : fragOpts vs = true) :
+    xorOpts true off vs s = mk (arrAtoms off vs s) := by
+  rw [xorOpts_eq_pairs, xorPairs_eq_mk]
+  · simp [arrAtoms, List.map_map, Function.comp_def]
+  · intro p hp
+    obtain ⟨q, hq, e⟩ := List.mem_map.1 hp
+    subst e
+    obtain ⟨pp, pf⟩ := fragOpts_mem vs q.2 hf (idxItems_mem vs off q hq)
+    exact ⟨pf, pp⟩
+  · have := arrAtoms_nodup off vs s hf
+    simpa [arrAtoms, List.map_map, Function.comp_def] using this
+
+theorem idxItems_ne_nil (off : Int) (vs : List (Option Rep)) (h : headSome vs = true) : idxItems off vs ≠ [] := by
+  cases vs with
+  | nil => simp [headSome] at h
+  | cons o r =>
+    cases o with
+    | none => simp [headSome] at h
+    | some x => simp [idxItems]
+
+theorem array_core (vs vs' : List (Option Rep)) (off off' : Int) (s : HV)
+    (hf : fragOpts vs = true) (hf' : fragOpts vs' = true)
+    (H : ∀ x, some x ∈ vs → ∀ y, some y ∈ vs' → ∀ S S' : HV,
+      (hashG true x S = hashG true y S' ↔ (S = S' ∧ den x = den y))) :
+    xorOpts true off vs s = xorOpts true off' vs' s ↔
+      seqM "@item" off (denOpts vs) = seqM "@item" off' (denOpts vs') := by
+  rw [xorOpts_eq_mk off vs s hf, xorOpts_eq_mk off' vs' s hf', mk_eq_iff]
+  have hs : seqM "@item" off (denOpts vs) = seqM "@item" off' (denOpts vs') ↔
+      ∀ v, v ∈ seqM "@item" off (denOpts vs) ↔ v ∈ seqM "@item" off' (denOpts vs') := by
+    constructor
+    · intro h v; rw [h]
+    · intro h; exact sorted_ext _ _ (seqM_sorted _ _ _) (seqM_sorted _ _ _) h
+  rw [hs, seqM_eq_idx, seqM_eq_idx]
+  unfold arrAtoms
+  apply map_mem_transfer
+  intro p hp q hq
+  obtain ⟨pp, pf⟩ := fragOpts_mem vs p.2 hf (idxItems_mem vs off p hp)
+  obtain ⟨qp, qf⟩ := fragOpts_mem vs' q.2 hf' (idxItems_mem vs' off' q hq)
+  have h1 : atomAt p.2 (intSeed p.1 s) = atomAt q.2 (intSeed q.1 s) ↔
+      hashG true p.2 (intSeed p.1 s) = hashG true q.2 (intSeed q.1 s) := by
+    rw [hash_singleton p.2 pf pp, hash_singleton q.2 qf qp]; simp
+  rw [h1, H p.2 (idxItems_mem vs off p hp) q.2 (idxItems_mem vs' off' q hq), intSeed_inj]
+  simp [vpair]
+
+theorem denOpts_length : ∀ (vs : List (Option Rep)), (denOpts vs).length = vs.length
+  | [] => rfl
+  | some _ :: r => by simp [denOpts, denOpts_length r]
+  | none :: r => by simp [denOpts, denOpts_length r]
+
+theorem headSome_denOpts (vs : List (Option Rep)) (h : headSome vs = true) : headSome (denOpts vs) = true := by
+  cases vs with
+  | nil => simp [headSome] at h
+  | cons o r => cases o <;> simp [headSome, denOpts] at h ⊢
+
+theorem lastSome_denOpts : ∀ (vs : List (Option Rep)), lastSome vs = true → lastSome (denOpts vs) = true
+  | [], h => by simp [lastSome] at h
+  | [o], h => by cases o <;> simp [lastSome, denOpts] at h ⊢
+  | o :: p :: r, h => by
+    simp only [lastSome] at h
+    have := lastSome_denOpts (p :: r) h
+    cases o <;> cases p <;> simpa [denOpts, lastSome] using this
+
+theorem optCount_denOpts : ∀ (vs : List (Option Rep)), optCount (denOpts vs) = optCount vs
+  | [] => rfl
+  | some _ :: r => by
+    have := optCount_denOpts r
+    simp [denOpts, optCount] at this ⊢; omega
+  | none :: r => by
+    have := optCount_denOpts r
+    simp [denOpts, optCount] at this ⊢; omega
+
+theorem arrEq_iff : ∀ (vs vs' : List (Option Rep)), vs.length = vs'.length →
+    (∀ x, some x ∈ vs → ∀ y, some y ∈ vs' → (equal x y = true ↔ den x = den y)) →
+    (arrEq true vs vs' = true ↔ denOpts vs = denOpts vs')
+  | [], [], _, _ => by simp [arrEq, denOpts]
+  | [], _ :: _, h, _ => by simp at h
+  | _ :: _, [], h, _ => by simp at h
+  | some c :: r, some d :: r', h, H => by
+    have ih := arrEq_iff r r' (by simpa using h)
+      (fun x hx y hy => H x (List.mem_cons_of_mem _ hx) y (List.mem_cons_of_mem _ hy))
+    have hc := H c (by simp) d (by simp)
+    simp only [arrEq, denOpts, Bool.and_eq_true, List.cons.injEq, Option.some.injEq]
+    rw [ih]
+    exact and_congr hc Iff.rfl
+  | some c :: r, none :: r', _, _ => by simp [arrEq, denOpts]
+  | none :: r, some d :: r', _, _ => by simp [arrEq, denOpts]
+  | none :: r, none :: r', h, H => by
+    have ih := arrEq_iff r r' (by simpa using h)
+      (fun x hx y hy => H x (List.mem_cons_of_mem _ hx) y (List.mem_cons_of_mem _ hy))
+    simp only [arrEq, denOpts, List.cons.injEq, true_and]
+    exact ih
+
+
+/-! ### generic tuples -/
+
+def strSeed (n : String) (s : HV) : HV := hatom "str" (nameV n) s
+def mapC (s : HV) : V := .tup [("mapC", .set []), ("seed", .set s)]
+def attrAtoms (as : List (String × Rep)) (s : HV) : List V := as.map (fun p => atomAt p.2 (strSeed p.1 s))
+
+theorem strSeed_inj (n m : String) (s s' : HV) : strSeed n s = strSeed m s' ↔ (n = m ∧ s = s') := by
+  simp [strSeed, hatom, nameV]
+
+theorem xorAttrs_eq_pairs : ∀ (as : List (String × Rep)) (s : HV),
+    xorAttrs true as s = xorPairs (as.map (fun p => (p.2, strSeed p.1 s)))
+  | [], _ => rfl
+  | (n, v) :: r, s => by simp [xorAttrs, xorPairs, strSeed, xorAttrs_eq_pairs r]
+
+theorem fragAttrs_mem : ∀ (as : List (String × Rep)) (p : String × Rep), fragAttrs as = true → p ∈ as →
+    plain p.2 = true ∧ frag p.2 = true
+  | [], _, _, h => by simp at h
+  | (n, v) :: r, p, hf, h => by
+    simp only [fragAttrs, Bool.and_eq_true] at hf
+    simp only [List.mem_cons] at h
+    rcases h with h | h
+    · subst h; exact hf.1
+    · exact fragAttrs_mem r p hf.2 h
+
+theorem wfAttrs_mem : ∀ (as : List (String × Rep)) (p : String × Rep), wfAttrs as = true → p ∈ as → wf p.2 = true
+  | [], _, _, h => by simp at h
+  | (n, v) :: r, p, hf, h => by
+    simp only [wfAttrs, Bool.and_eq_true] at hf
+    simp only [List.mem_cons] at h
+    rcases h with h | h
+    · subst h; exact hf.1
+    · exact wfAttrs_mem r p hf.2 h
+
+theorem depth_mem_attrs : ∀ (as : List (String × Rep)) (p : String × Rep), p ∈ as → depth p.2 ≤ depthAttrs as
+  | [], _, h => by simp at h
+  | (n, v) :: r, p, h => by
+    simp only [List.mem_cons] at h
+    rcases h with h | h
+    · subst h; simp [depthAttrs]
+    · have := depth_mem_attrs r p h
+      simp [depthAttrs]; omega
+
+theorem depth_gtuple (as : List (String × Rep)) (p : String × Rep) (h : p ∈ as) : depth p.2 < depth (.gtuple as) := by
+  have := depth_mem_attrs as p h
+  cases as with
+  | nil => simp at h
+  | cons q r => simp only [depth]; omega
+
+theorem attrAtoms_nodup (as : List (String × Rep)) (s : HV) (hnd : (namesOf as).Nodup) (hf : fragAttrs as = true) :
+    (attrAtoms as s).Nodup := by
+  apply nodup_map_of (fun p : String × Rep => atomAt p.2 (strSeed p.1 s)) (·.1) as
+  · intro p hp q hq e
+    obtain ⟨pp, pf⟩ := fragAttrs_mem as p hf hp
+    obtain ⟨qp, qf⟩ := fragAttrs_mem as q hf hq
+    have := atomAt_seed_inj p.2 q.2 pf pp qf qp _ _ e
+    exact ((strSeed_inj _ _ _ _).1 this).1
+  · exact hnd
+
+theorem xorAttrs_eq_mk (as : List (String × Rep)) (s : HV) (hnd : (namesOf as).Nodup) (hf : fragAttrs as = true) :
+    xorAttrs true as s = mk (attrAtoms as s) := by
+  rw [xorAttrs_eq_pairs, xorPairs_eq_mk]
+  · simp [attrAtoms, List.map_map, Function.comp_def]
+  · intro p hp
+    obtain ⟨q, hq, e⟩ := List.mem_map.1 hp
+    subst e
+    obtain ⟨pp, pf⟩ := fragAttrs_mem as q hf hq
+    exact ⟨pf, pp⟩
+  · have := attrAtoms_nodup as s hnd hf
+    simpa [attrAtoms, List.map_map, Function.comp_def] using this
+
+theorem mapC_notin (as : List (String × Rep)) (s s' : HV) (hf : fragAttrs as = true) : mapC s' ∉ attrAtoms as s := by
+  intro h
+  obtain ⟨p, hp, e⟩ := List.mem_map.1 h
+  obtain ⟨pp, pf⟩ := fragAttrs_mem as p hf hp
+  exact atomAt_ne_mapC p.2 pf pp _ _ _ e
+
+/-- what `GenericTuple.Hash` finishes: the map constant and one atom per attribute -/
+theorem gtuple_payload (as : List (String × Rep)) (s : HV) (hnd : (namesOf as).Nodup) (hf : fragAttrs as = true) :
+    hxor (hatom "mapC" (.set []) s) (xorAttrs true as s) = mk (mapC s :: attrAtoms as s) := by
+  rw [xorAttrs_eq_mk as s hnd hf]
+  have : mapC s ∉ mk (attrAtoms as s) := fun h => mapC_notin as s s hf ((mem_mk _ _).1 h)
+  show hxor [mapC s] _ = _
+  rw [hxor, symdiff_singleton _ _ (sorted_mk _) this]
+  rfl
+
+theorem lookupV_some_of_mem : ∀ (l : List (String × V)) (k : String) (v : V), (l.map (·.1)).Nodup →
+    (k, v) ∈ l → lookupV k l = some v
+  | [], _, _, _, h => by simp at h
+  | (m, w) :: r, k, v, hn, h => by
+    simp only [List.map_cons, List.nodup_cons] at hn
+    simp only [List.mem_cons, Prod.mk.injEq] at h
+    rcases h with ⟨rfl, rfl⟩ | h
+    · simp [lookupV]
+    · have : k ≠ m := by
+        intro e; subst e
+        exact hn.1 (List.mem_map.2 ⟨(k, v), h, rfl⟩)
+      simp only [lookupV, this, if_false]
+      exact lookupV_some_of_mem r k v hn.2 h
+
+theorem lookupV_mem : ∀ (l : List (String × V)) (k : String) (v : V), lookupV k l = some v → (k, v) ∈ l
+  | [], _, _, h => by simp [lookupV] at h
+  | (m, w) :: r, k, v, h => by
+    simp only [lookupV] at h
+    split at h
+    · next e => subst e; simp at h; subst h; simp
+    · exact List.mem_cons_of_mem _ (lookupV_mem r k v h)
+
+theorem lookup_ext_iff_mem (l l' : List (String × V)) (hn : (l.map (·.1)).Nodup) (hn' : (l'.map (·.1)).Nodup) :
+    (∀ k, lookupV k l = lookupV k l') ↔ (∀ q, q ∈ l ↔ q ∈ l') := by
+  constructor
+  · intro h q
+    obtain ⟨k, v⟩ := q
+    constructor
+    · intro hq
+      have := lookupV_some_of_mem l k v hn hq
+      rw [h k] at this
+      exact lookupV_mem l' k v this
+    · intro hq
+      have := lookupV_some_of_mem l' k v hn' hq
+      rw [← h k] at this
+      exact lookupV_mem l k v this
+  · intro h k
+    cases h1 : lookupV k l with
+    | some v =>
+      have := (h (k, v)).1 (lookupV_mem l k v h1)
+      rw [lookupV_some_of_mem l' k v hn' this]
+    | none =>
+      cases h2 : lookupV k l' with
+      | none => rfl
+      | some w =>
+        have := (h (k, w)).2 (lookupV_mem l' k w h2)
+        rw [lookupV_some_of_mem l k w hn this] at h1
+        cases h1
+
+theorem denAttrs_eq_map : ∀ (as : List (String × Rep)), denAttrs as = as.map (fun p => (p.1, den p.2))
+  | [] => rfl
+  | (_, _) :: r => by simp [denAttrs, denAttrs_eq_map r]
+
+theorem gtuple_core (as bs : List (String × Rep)) (s : HV)
+    (na : (namesOf as).Nodup) (nb : (namesOf bs).Nodup) (fa : fragAttrs as = true) (fb : fragAttrs bs = true)
+    (H : ∀ p, p ∈ as → ∀ q, q ∈ bs → ∀ S S' : HV,
+      (hashG true p.2 S = hashG true q.2 S' ↔ (S = S' ∧ den p.2 = den q.2))) :
+    mk (mapC s :: attrAtoms as s) = mk (mapC s :: attrAtoms bs s) ↔
+      V.mkTup (denAttrs as) = V.mkTup (denAttrs bs) := by
+  rw [mkTup_eq_iff, lookup_ext_iff_mem _ _ (by rw [denAttrs_names]; exact na) (by rw [denAttrs_names]; exact nb),
+    mk_eq_iff, denAttrs_eq_map, denAttrs_eq_map]
+  have hA := mapC_notin as s s fa
+  have hB := mapC_notin bs s s fb
+  have h1 : (∀ v, v ∈ mapC s :: attrAtoms as s ↔ v ∈ mapC s :: attrAtoms bs s) ↔
+      (∀ v, v ∈ attrAtoms as s ↔ v ∈ attrAtoms bs s) := by
+    constructor
+    · intro h v
+      constructor
+      · intro hv
+        rcases List.mem_cons.1 ((h v).1 (List.mem_cons_of_mem _ hv)) with e | h'
+        · subst e; exact absurd hv hA
+        · exact h'
+      · intro hv
+        rcases List.mem_cons.1 ((h v).2 (List.mem_cons_of_mem _ hv)) with e | h'
+        · subst e; exact absurd hv hB
+        · exact h'
+    · intro h v
+      simp only [List.mem_cons, h v]
+  rw [h1]
+  unfold attrAtoms
+  apply map_mem_transfer
+  intro p hp q hq
+  obtain ⟨pp, pf⟩ := fragAttrs_mem as p fa hp
+  obtain ⟨qp, qf⟩ := fragAttrs_mem bs q fb hq
+  have h2 : atomAt p.2 (strSeed p.1 s) = atomAt q.2 (strSeed q.1 s) ↔
+      hashG true p.2 (strSeed p.1 s) = hashG true q.2 (strSeed q.1 s) := by
+    rw [hash_singleton p.2 pf pp, hash_singleton q.2 qf qp]; simp
+  rw [h2, H p hp q hq, strSeed_inj]
+  simp
+
+/-! #### `GenericTuple.Equal` against any tuple -/
+
+theorem tupleGet_attrsOf (b : Rep) (hb : isTuple b = true) (n : String) : tupleGet b n = lookupAttr n (attrsOf b) := by
+  cases b <;> simp [isTuple] at hb <;> simp [tupleGet, attrsOf, lookupAttr]
+  all_goals (split <;> simp_all)
+
+theorem tupleNames_attrsOf (b : Rep) (hb : isTuple b = true) : tupleNames b = namesOf (attrsOf b) := by
+  cases b <;> simp [isTuple] at hb <;> simp [tupleNames, attrsOf, namesOf]
+
+theorem den_attrsOf (b : Rep) (hb : isTuple b = true) : den b = V.mkTup (denAttrs (attrsOf b)) := by
+  cases b <;> simp [isTuple] at hb <;> simp [den, attrsOf, denAttrs, V.mkTup, V.insAttr, vpair]
+
+theorem lookupAttr_some_of_mem : ∀ (as : List (String × Rep)) (k : String) (v : Rep), (namesOf as).Nodup →
+    (k, v) ∈ as → lookupAttr k as = some v
+  | [], _, _, _, h => by simp at h
+  | (m, w) :: r, k, v, hn, h => by
+    simp only [namesOf, List.map_cons, List.nodup_cons] at hn
+    simp only [List.mem_cons, Prod.mk.injEq] at h
+    rcases h with ⟨rfl, rfl⟩ | h
+    · simp [lookupAttr]
+    · have : k ≠ m := by
+        intro e; subst e
+        exact hn.1 (List.mem_map.2 ⟨(k, v), h, rfl⟩)
+      simp only [lookupAttr, this, if_false]
+      exact lookupAttr_some_of_mem r k v hn.2 h
+
+theorem lookupAttr_mem : ∀ (as : List (String × Rep)) (k : String) (v : Rep), lookupAttr k as = some v → (k, v) ∈ as
+  | [], _, _, h => by simp [lookupAttr] at h
+  | (m, w) :: r, k, v, h => by
+    simp only [lookupAttr] at h
+    split at h
+    · next e => subst e; simp at h; subst h; simp
+    · exact List.mem_cons_of_mem _ (lookupAttr_mem r k v h)
+
+theorem lookupAttr_none_iff : ∀ (as : List (String × Rep)) (k : String), lookupAttr k as = none ↔ k ∉ namesOf as
+  | [], _ => by simp [lookupAttr, namesOf]
+  | (m, w) :: r, k => by
+    simp only [lookupAttr, namesOf, List.map_cons, List.mem_cons, not_or]
+    split
+    · next e => simp [e]
+    · next e =>
+      have := lookupAttr_none_iff r k
+      simp only [namesOf] at this
+      rw [this]; simp [e]
+
+theorem equalAttrsIn_iff : ∀ (as : List (String × Rep)) (b : Rep),
+    equalAttrsIn true as b = true ↔ ∀ p, p ∈ as → ∃ w, tupleGet b p.1 = some w ∧ equalG true p.2 w = true
+  | [], b => by simp [equalAttrsIn]
+  | (n, v) :: r, b => by
+    simp only [equalAttrsIn, Bool.and_eq_true, equalAttrsIn_iff r b, List.mem_cons, forall_eq_or_imp]
+    constructor
+    · rintro ⟨h1, h2⟩
+      refine ⟨?_, h2⟩
+      cases hg : tupleGet b n with
+      | none => rw [hg] at h1; simp at h1
+      | some w => rw [hg] at h1; exact ⟨w, rfl, h1⟩
+    · rintro ⟨⟨w, hw, he⟩, h2⟩
+      refine ⟨?_, h2⟩
+      rw [hw]; exact he
+
+/-- `GenericTuple.Equal(b)` for a tuple `b` of any representation is equality of the name ↦ value maps -/
+theorem gtuple_equal_iff (as : List (String × Rep)) (b : Rep) (hb : isTuple b = true)
+    (na : (namesOf as).Nodup) (nb : (namesOf (attrsOf b)).Nodup)
+    (HE : ∀ p, p ∈ as → ∀ q, q ∈ attrsOf b → (equal p.2 q.2 = true ↔ den p.2 = den q.2)) :
+    equal (.gtuple as) b = true ↔ den (.gtuple as) = den b := by
+  rw [den_attrsOf b hb]
+  simp only [den, mkTup_eq_iff, equal, equalG, hb, Bool.true_and, Bool.and_eq_true, equalAttrsIn_iff,
+    List.all_eq_true, tupleNames_attrsOf b hb]
+  constructor
+  · rintro ⟨h1, h2⟩ k
+    rw [lookupV_denAttrs, lookupV_denAttrs]
+    cases hk : lookupAttr k as with
+    | some v =>
+      obtain ⟨w, hw, he⟩ := h1 (k, v) (lookupAttr_mem as k v hk)
+      rw [tupleGet_attrsOf b hb] at hw
+      have := (HE (k, v) (lookupAttr_mem as k v hk) (k, w) (lookupAttr_mem _ k w hw)).1 he
+      simp only [] at hw
+      rw [hw]; simp [this]
+    | none =>
+      cases hk' : lookupAttr k (attrsOf b) with
+      | none => rfl
+      | some w =>
+        exfalso
+        have hm : k ∈ namesOf (attrsOf b) := by
+          have := lookupAttr_mem _ k w hk'
+          exact List.mem_map.2 ⟨(k, w), this, rfl⟩
+        have := h2 k hm
+        have hnot := (lookupAttr_none_iff as k).1 hk
+        simp [namesOf] at this hnot
+        obtain ⟨x, hx⟩ := this
+        exact hnot x hx
+  · intro h
+    constructor
+    · intro p hp
+      have hk := lookupAttr_some_of_mem as p.1 p.2 na hp
+      have := h p.1
+      rw [lookupV_denAttrs, lookupV_denAttrs, hk] at this
+      cases hk' : lookupAttr p.1 (attrsOf b) with
+      | none => rw [hk'] at this; simp at this
+      | some w =>
+        rw [hk'] at this
+        simp at this
+        refine ⟨w, by rw [tupleGet_attrsOf b hb]; exact hk', ?_⟩
+        exact (HE p hp (p.1, w) (lookupAttr_mem _ _ _ hk')).2 this
+    · intro k hk
+      have := h k
+      rw [lookupV_denAttrs, lookupV_denAttrs] at this
+      have hb' : lookupAttr k (attrsOf b) ≠ none := by
+        intro e; exact ((lookupAttr_none_iff _ k).1 e) hk
+      cases hk' : lookupAttr k as with
+      | none =>
+        rw [hk'] at this
+        cases hk'' : lookupAttr k (attrsOf b) with
+        | none => exact absurd hk'' hb'
+        | some w => rw [hk''] at this; simp at this
+      | some v =>
+        have := lookupAttr_mem as k v hk'
+        simp
+        exact ⟨v, this⟩
 
 /-! ### the main theorem on the fragment -/
 
 /-- the statement proved by induction on a bound of the nesting depth -/
 def MainAt (a b : Rep) : Prop :=
   (equal a b = true ↔ den a = den b) ∧
-  (∀ s s' : HV, hashG true a s = hashG true b s' ↔ (s = s' ∧ den a = den b))
+  (plain a = true → plain b = true →
+    ∀ s s' : HV, hashG true a s = hashG true b s' ↔ (s = s' ∧ den a = den b))
 
 theorem cross_lemma (a b : Rep) (hne : ctorTag a ≠ ctorTag b)
     (htag : den a = den b → ctorTag a = ctorTag b) (heq : equal a b = false)
-    (hh : ∀ s s', hashG true a s ≠ hashG true b s') : MainAt a b :=
+    (hh : plain a = true → plain b = true → ∀ s s', hashG true a s ≠ hashG true b s') : MainAt a b :=
   ⟨⟨fun h => (by rw [heq] at h; cases h), fun h => absurd (htag h) hne⟩,
-   fun s s' => ⟨fun h => absurd h (hh s s'), fun h => absurd (htag h.2) hne⟩⟩
+   fun pa pb s s' => ⟨fun h => absurd h (hh pa pb s s'), fun h => absurd (htag h.2) hne⟩⟩
+
+theorem genericMember_plain (x : Rep) (h : genericMember x = true) : plain x = true := by
+  cases x <;> simp [genericMember, isSet] at h <;> simp [plain]
 
 theorem generic_facts (n : Nat) (zs : List Rep) (hd : depth (.generic zs) < n + 1)
     (hw : wf (.generic zs) = true) (hf : frag (.generic zs) = true) :
     fragList zs = true ∧ (denList zs).Nodup ∧ zs ≠ [] ∧ denList zs ≠ [V.tup []] ∧ wfList zs = true ∧
-    (∀ x, x ∈ zs → depth x < n) := by
+    (∀ x, x ∈ zs → depth x < n) ∧ (∀ x, x ∈ zs → plain x = true) := by
   simp only [wf, Bool.and_eq_true, Bool.not_eq_true', decide_eq_true_eq] at hw
-  obtain ⟨⟨⟨⟨hne, hwl⟩, _⟩, hnd⟩, hnt⟩ := hw
-  refine ⟨by simpa [frag] using hf, hnd, ?_, ?_, hwl, ?_⟩
+  obtain ⟨⟨⟨⟨hne, hwl⟩, hgm⟩, hnd⟩, hnt⟩ := hw
+  refine ⟨by simpa [frag] using hf, hnd, ?_, ?_, hwl, ?_, ?_⟩
   · intro e; subst e; simp at hne
   · intro e; rw [e] at hnt; simp at hnt
   · intro x hx
     have := depth_mem_list zs x hx
     simp only [depth] at hd
     omega
+  · intro x hx
+    exact genericMember_plain x (List.all_eq_true.1 hgm x hx)
+
+theorem array_facts (n : Nat) (vs : List (Option Rep)) (off c : Int) (hd : depth (.array vs off c) < n + 1)
+    (hw : wf (.array vs off c) = true) (hf : frag (.array vs off c) = true) :
+    fragOpts vs = true ∧ headSome vs = true ∧ lastSome vs = true ∧ wfOpts vs = true ∧ c = (optCount vs : Int) ∧
+    (∀ x, some x ∈ vs → depth x < n) := by
+  simp only [wf, Bool.and_eq_true, beq_iff_eq] at hw
+  obtain ⟨⟨⟨hh, hl⟩, hwo⟩, hc⟩ := hw
+  refine ⟨by simpa [frag] using hf, hh, hl, hwo, hc, ?_⟩
+  intro x hx
+  have := depth_mem_opts vs x hx
+  simp only [depth] at hd
+  omega
 
 macro "cross" htag:ident fb:ident : tactic => `(tactic| first
   | (simp [frag] at $fb:ident; done)
-  | (simp only [frag, List.isEmpty_iff] at $fb:ident; subst $fb:ident
-     exact cross_lemma _ _ (by simp [ctorTag]) $htag (by simp [equal, equalG, isTuple, equalAttrsIn, tupleNames])
-      (by intro s s'; simp [hashG, hfin, hatom, xorAttrs, hxor_nil_right]))
   | exact cross_lemma _ _ (by simp [ctorTag]) $htag (by simp [equal, equalG, isTuple, equalAttrsIn, tupleNames])
-      (by intro s s'; simp [hashG, hfin, hatom]))
+      (by first
+        | (intro hp; simp [plain] at hp; done)
+        | (intro _ hq; simp [plain] at hq; done)
+        | (intro _ _ s s'; simp [hashG, hfin, hatom])))
+
+theorem gtuple_facts (n : Nat) (as : List (String × Rep)) (hd : depth (.gtuple as) < n + 1)
+    (hw : wf (.gtuple as) = true) (hf : frag (.gtuple as) = true) :
+    (namesOf as).Nodup ∧ wfAttrs as = true ∧ fragAttrs as = true ∧ (∀ p, p ∈ as → depth p.2 < n) := by
+  simp only [wf, Bool.and_eq_true, decide_eq_true_eq] at hw
+  refine ⟨hw.1.1, hw.1.2, by simpa [frag] using hf, ?_⟩
+  intro p hp
+  have := depth_gtuple as p hp
+  omega
+
+theorem gtuple_payload_mem (as : List (String × Rep)) (s : HV) (hnd : (namesOf as).Nodup)
+    (hf : fragAttrs as = true) : mapC s ∈ hxor (hatom "mapC" (.set []) s) (xorAttrs true as s) := by
+  rw [gtuple_payload as s hnd hf, mem_mk]; simp
+
+/-- the attributes of a canonical fragment tuple are canonical fragment values of smaller depth -/
+theorem attrsOf_facts (n : Nat) (b : Rep) (hb : isTuple b = true) (hd : depth b < n + 1) (hn : 0 < n)
+    (hw : wf b = true) (hf : frag b = true) :
+    (namesOf (attrsOf b)).Nodup ∧ ∀ q, q ∈ attrsOf b → depth q.2 < n ∧ wf q.2 = true ∧ frag q.2 = true := by
+  cases b <;> simp [isTuple] at hb
+  case gtuple bs =>
+    obtain ⟨nb, wb, fb, db⟩ := gtuple_facts n bs hd hw hf
+    exact ⟨nb, fun q hq => ⟨db q hq, wfAttrs_mem bs q wb hq, (fragAttrs_mem bs q fb hq).2⟩⟩
+  case charT i c =>
+    refine ⟨by simp [attrsOf, namesOf], ?_⟩
+    intro q hq
+    simp [attrsOf] at hq
+    rcases hq with rfl | rfl <;> simp [depth, wf, frag, hn]
+  case byteT i c =>
+    refine ⟨by simp [attrsOf, namesOf], ?_⟩
+    intro q hq
+    simp [attrsOf] at hq
+    rcases hq with rfl | rfl <;> simp [depth, wf, frag, hn]
+  case itemT i x =>
+    refine ⟨by simp [attrsOf, namesOf], ?_⟩
+    intro q hq
+    simp [attrsOf] at hq
+    simp only [frag, Bool.and_eq_true] at hf
+    simp only [depth] at hd
+    rcases hq with rfl | rfl
+    · simp [depth, wf, frag, hn]
+    · exact ⟨by simp; omega, by simpa [wf] using hw, hf.2⟩
+  case entryT k v =>
+    refine ⟨by simp [attrsOf, namesOf], ?_⟩
+    intro q hq
+    simp [attrsOf] at hq
+    simp only [frag, Bool.and_eq_true] at hf
+    simp only [wf, Bool.and_eq_true] at hw
+    simp only [depth] at hd
+    rcases hq with rfl | rfl
+    · exact ⟨by simp; omega, hw.1, hf.1.2⟩
+    · exact ⟨by simp; omega, hw.2, hf.2⟩
 
 theorem main_frag : ∀ (n : Nat) (a b : Rep), depth a < n → depth b < n → wf a = true → wf b = true →
     frag a = true → frag b = true → MainAt a b := by
@@ -772,45 +1550,83 @@ theorem main_frag : ∀ (n : Nat) (a b : Rep), depth a < n → depth b < n → w
     intro a b ha hb wa wb fa fb
     have htag : den a = den b → ctorTag a = ctorTag b := by
       intro h; rw [← vtag_den a wa fa, ← vtag_den b wb fb, h]
+    -- the induction hypothesis for plain values, any seeds
+    have ihH : ∀ x y, depth x < n → depth y < n → wf x = true → wf y = true → frag x = true → frag y = true →
+        plain x = true → plain y = true →
+        ∀ S S' : HV, (hashG true x S = hashG true y S' ↔ (S = S' ∧ den x = den y)) :=
+      fun x y dx dy wx wy fx fy px py => (ih x y dx dy wx wy fx fy).2 px py
     -- hash injectivity among members of generic sets below the bound
     have memH : ∀ (xs ys : List Rep), (∀ x, x ∈ xs → depth x < n) → (∀ x, x ∈ ys → depth x < n) →
         wfList xs = true → wfList ys = true → fragList xs = true → fragList ys = true →
+        (∀ x, x ∈ xs → plain x = true) → (∀ x, x ∈ ys → plain x = true) →
         ∀ x, x ∈ xs ++ ys → ∀ y, y ∈ xs ++ ys → (hashG true x [] = hashG true y [] ↔ den x = den y) := by
-      intro xs ys dx dy wx wy fx fy x hx y hy
-      have px : depth x < n ∧ wf x = true ∧ frag x = true := by
+      intro xs ys dx dy wx wy fx fy ppx ppy x hx y hy
+      have px : depth x < n ∧ wf x = true ∧ frag x = true ∧ plain x = true := by
         rcases List.mem_append.1 hx with h | h
-        · exact ⟨dx x h, wfList_mem xs x wx h, fragList_mem xs x fx h⟩
-        · exact ⟨dy x h, wfList_mem ys x wy h, fragList_mem ys x fy h⟩
-      have py : depth y < n ∧ wf y = true ∧ frag y = true := by
+        · exact ⟨dx x h, wfList_mem xs x wx h, fragList_mem xs x fx h, ppx x h⟩
+        · exact ⟨dy x h, wfList_mem ys x wy h, fragList_mem ys x fy h, ppy x h⟩
+      have py : depth y < n ∧ wf y = true ∧ frag y = true ∧ plain y = true := by
         rcases List.mem_append.1 hy with h | h
-        · exact ⟨dx y h, wfList_mem xs y wx h, fragList_mem xs y fx h⟩
-        · exact ⟨dy y h, wfList_mem ys y wy h, fragList_mem ys y fy h⟩
-      have := (ih x y px.1 py.1 px.2.1 py.2.1 px.2.2 py.2.2).2 [] []
+        · exact ⟨dx y h, wfList_mem xs y wx h, fragList_mem xs y fx h, ppx y h⟩
+        · exact ⟨dy y h, wfList_mem ys y wy h, fragList_mem ys y fy h, ppy y h⟩
+      have := ihH x y px.1 py.1 px.2.1 py.2.1 px.2.2.1 py.2.2.1 px.2.2.2 py.2.2.2 [] []
       simpa using this
+    -- the empty tuple as a possible member of a generic set
+    have unitFacts : 0 < n → (∀ x, x ∈ [Rep.gtuple []] → depth x < n) ∧ wfList [Rep.gtuple []] = true ∧
+        fragList [Rep.gtuple []] = true ∧ (∀ x, x ∈ [Rep.gtuple []] → plain x = true) := by
+      intro hn
+      refine ⟨?_, by simp [wfList, wf, wfAttrs, namesOf, specialisable], by simp [fragList, frag, fragAttrs], ?_⟩
+      · intro x hx; simp at hx; subst hx; simpa [depth] using hn
+      · intro x hx; simp at hx; subst hx; rfl
     cases a with
     | num x =>
       cases b with
       | num y =>
-        refine ⟨by simp [equal, equalG, den], fun s s' => ?_⟩
+        refine ⟨by simp [equal, equalG, den], fun _ _ s s' => ?_⟩
         simp [hashG, hatom, den]; constructor <;> (rintro ⟨h1, h2⟩; exact ⟨h2, h1⟩)
       | _ => cross htag fb
     | charT i c =>
       cases b with
       | charT j d =>
-        refine ⟨by simp [equal, equalG, den, vpair], fun s s' => ?_⟩
+        refine ⟨by simp [equal, equalG, den, vpair], fun _ _ s s' => ?_⟩
         simp [hashG, hatom, den, vpair]; constructor <;> (rintro ⟨h1, h2⟩; exact ⟨h2, h1⟩)
       | _ => cross htag fb
     | byteT i c =>
       cases b with
       | byteT j d =>
-        refine ⟨by simp [equal, equalG, den, vpair], fun s s' => ?_⟩
+        refine ⟨by simp [equal, equalG, den, vpair], fun _ _ s s' => ?_⟩
         simp [hashG, hatom, den, vpair]; constructor <;> (rintro ⟨h1, h2⟩; exact ⟨h2, h1⟩)
+      | _ => cross htag fb
+    | itemT i x =>
+      cases b with
+      | itemT j y =>
+        simp only [frag, Bool.and_eq_true] at fa fb
+        have dx : depth x < n := by simp only [depth] at ha; omega
+        have dy : depth y < n := by simp only [depth] at hb; omega
+        have := (ih x y dx dy (by simpa [wf] using wa) (by simpa [wf] using wb) fa.2 fb.2).1
+        refine ⟨?_, fun hp => by simp [plain] at hp⟩
+        simp only [equal, equalG, Bool.and_eq_true, beq_iff_eq]
+        rw [show equalG true x y = equal x y from rfl, this]
+        simp [den, vpair]
+      | _ => cross htag fb
+    | entryT k v =>
+      cases b with
+      | entryT k' v' =>
+        simp only [frag, Bool.and_eq_true] at fa fb
+        simp only [wf, Bool.and_eq_true] at wa wb
+        simp only [depth] at ha hb
+        have h1 := (ih k k' (by omega) (by omega) wa.1 wb.1 fa.1.2 fb.1.2).1
+        have h2 := (ih v v' (by omega) (by omega) wa.2 wb.2 fa.2 fb.2).1
+        refine ⟨?_, fun hp => by simp [plain] at hp⟩
+        simp only [equal, equalG, Bool.and_eq_true]
+        rw [show equalG true k k' = equal k k' from rfl, show equalG true v v' = equal v v' from rfl, h1, h2]
+        simp [den, vpair]
       | _ => cross htag fb
     | str r off h =>
       cases b with
       | str r' off' h' =>
         have key := str_den_inj r r' off off' h h' wa wb
-        refine ⟨?_, fun s s' => ?_⟩
+        refine ⟨?_, fun _ _ s s' => ?_⟩
         · rw [key]; simp [equal, equalG]
           constructor
           · rintro ⟨⟨⟨h1, h2⟩, _⟩, h4⟩; exact ⟨h1, h4, h2⟩
@@ -827,7 +1643,7 @@ theorem main_frag : ∀ (n : Nat) (a b : Rep), depth a < n → depth b < n → w
       cases b with
       | bytes r' off' =>
         have key := bytes_den_inj r r' off off' wa wb
-        refine ⟨?_, fun s s' => ?_⟩
+        refine ⟨?_, fun _ _ s s' => ?_⟩
         · rw [key]; simp [equal, equalG]
         · rw [key]; simp [hashG, hatom, numsV_inj]
           constructor
@@ -836,70 +1652,206 @@ theorem main_frag : ∀ (n : Nat) (a b : Rep), depth a < n → depth b < n → w
       | _ => cross htag fb
     | empty =>
       cases b with
-      | empty => exact ⟨by simp [equal, equalG], fun s s' => by simp [hashG, hfin, hatom]⟩
+      | empty => exact ⟨by simp [equal, equalG], fun _ _ s s' => by simp [hashG, hfin, hatom]⟩
       | generic ys =>
-        obtain ⟨fy, ny, ney, _, wy, dy⟩ := generic_facts n ys hb wb fb
-        have ay := atoms_nodup ys fy ny (fun x hx y hy => memH ys [] dy (by simp) wy rfl fy rfl x (by simp [hx]) y (by simp [hy]))
+        obtain ⟨fy, ny, ney, _, wy, dy, py⟩ := generic_facts n ys hb wb fb
+        have ay := atoms_nodup ys fy py ny (fun x hx y hy =>
+          memH ys [] dy (by simp) wy rfl fy rfl py (by simp) x (by simp [hx]) y (by simp [hy]))
         apply cross_lemma _ _ (by simp [ctorTag]) htag (by simp [equal, equalG])
-        intro s s' h
+        intro _ _ s s' h
         simp [hashG, hfin, hatom] at h
-        exact xorList_ne_nil ys fy ay ney h.1
+        exact xorList_ne_nil ys fy py ay ney h.1
+      | array vs' off' c' =>
+        obtain ⟨fo, hh, _, _, _, _⟩ := array_facts n vs' off' c' hb wb fb
+        apply cross_lemma _ _ (by simp [ctorTag]) htag (by simp [equal, equalG])
+        intro _ _ s s' h
+        simp [hashG, hfin, hatom] at h
+        rw [xorOpts_eq_mk off' vs' s' fo] at h
+        have := (mk_eq_nil _).1 h.1
+        simp [arrAtoms] at this
+        exact idxItems_ne_nil off' vs' hh this
+      | gtuple bs =>
+        obtain ⟨nb, _, fbs, _⟩ := gtuple_facts n bs hb wb fb
+        apply cross_lemma _ _ (by simp [ctorTag]) htag (by simp [equal, equalG])
+        intro _ _ s s' h
+        simp only [hashG, hfin, hatom, if_true] at h
+        simp at h
+        have := gtuple_payload_mem bs s' nb fbs
+        rw [show hatom "mapC" (V.set []) s' = [V.tup [("mapC", V.set []), ("seed", V.set s')]] from rfl, h.1] at this
+        simp at this
       | _ => cross htag fb
     | true_ =>
       cases b with
-      | true_ => exact ⟨by simp [equal, equalG], fun s s' => by simp [hashG, hfin, hatom]⟩
+      | true_ => exact ⟨by simp [equal, equalG], fun _ _ s s' => by simp [hashG, hfin, hatom]⟩
       | generic ys =>
-        obtain ⟨fy, ny, ney, nty, wy, dy⟩ := generic_facts n ys hb wb fb
+        obtain ⟨fy, ny, ney, nty, wy, dy, py⟩ := generic_facts n ys hb wb fb
         have hn : 0 < n := by simp only [depth] at hb; omega
-        have Hy := memH ys [.gtuple []] dy (by intro x hx; simp at hx; subst hx; simpa [depth] using hn) wy
-          (by simp [wfList, wf, wfAttrs, namesOf, specialisable]) fy (by simp [fragList, frag])
-        have ay := atoms_nodup ys fy ny (fun x hx y hy => Hy x (by simp [hx]) y (by simp [hy]))
+        obtain ⟨u1, u2, u3, u4⟩ := unitFacts hn
+        have Hy := memH ys [.gtuple []] dy u1 wy u2 fy u3 py u4
+        have ay := atoms_nodup ys fy py ny (fun x hx y hy => Hy x (by simp [hx]) y (by simp [hy]))
         apply cross_lemma _ _ (by simp [ctorTag]) htag (by simp [equal, equalG])
-        intro s s' h
+        intro _ _ s s' h
         simp [hashG, hfin, hatom] at h
-        obtain ⟨y, e, hy⟩ := xorList_single ys fy ay _ h.1.symm
+        obtain ⟨y, e, hy⟩ := xorList_single ys fy py ay _ h.1.symm
         subst e
         have hfy : frag y = true := by simpa [fragList] using fy
         have h2 : hashG true y [] = hashG true (.gtuple []) [] := by
-          rw [hash_singleton y hfy, hy]; simp [hashG, hfin, hatom, xorAttrs, hxor_nil_right]
+          have hy' : atomAt y [] = _ := hy
+          rw [hash_singleton y hfy (py y (by simp)), hy']; simp [hashG, hfin, hatom, xorAttrs, hxor_nil_right]
         have := (Hy y (by simp) (.gtuple []) (by simp)).1 h2
         simp [den, denAttrs, V.mkTup] at this
         apply nty; simp [denList, this]
+      | array vs' off' c' =>
+        obtain ⟨fo, hh, _, _, _, _⟩ := array_facts n vs' off' c' hb wb fb
+        apply cross_lemma _ _ (by simp [ctorTag]) htag (by simp [equal, equalG])
+        intro _ _ s s' h
+        simp [hashG, hfin, hatom] at h
+        rw [xorOpts_eq_mk off' vs' s' fo] at h
+        -- the single atom on the left has seed [], array item atoms have an index seed
+        cases hi : idxItems off' vs' with
+        | nil => exact idxItems_ne_nil off' vs' hh hi
+        | cons p r =>
+          have hm : atomAt p.2 (intSeed p.1 s') ∈ mk (arrAtoms off' vs' s') := by
+            rw [mem_mk]; simp [arrAtoms, hi]
+          rw [← h.1] at hm
+          simp at hm
+          obtain ⟨pp, pf⟩ := fragOpts_mem vs' p.2 fo (idxItems_mem vs' off' p (by rw [hi]; simp))
+          obtain ⟨t, q, e⟩ := atomAt_seed p.2 pf pp (intSeed p.1 s')
+          rw [e] at hm
+          simp [intSeed, hatom] at hm
+      | gtuple bs =>
+        obtain ⟨nb, _, fbs, _⟩ := gtuple_facts n bs hb wb fb
+        apply cross_lemma _ _ (by simp [ctorTag]) htag (by simp [equal, equalG])
+        intro _ _ s s' h
+        simp only [hashG, hfin, hatom, if_true] at h
+        simp at h
+        have := gtuple_payload_mem bs s' nb fbs
+        rw [show hatom "mapC" (V.set []) s' = [V.tup [("mapC", V.set []), ("seed", V.set s')]] from rfl, ← h.1] at this
+        simp [mapC] at this
       | _ => cross htag fb
     | gtuple as =>
-      have e : as = [] := by simpa [frag] using fa
-      subst e
-      cases b with
-      | gtuple bs =>
-        have e : bs = [] := by simpa [frag] using fb
-        subst e
-        exact ⟨by simp [equal, equalG, isTuple, equalAttrsIn, tupleNames], fun s s' => by
-          simp [hashG, hfin, hatom, xorAttrs, hxor_nil_right]⟩
-      | generic ys =>
-        obtain ⟨fy, ny, ney, _, wy, dy⟩ := generic_facts n ys hb wb fb
-        have ay := atoms_nodup ys fy ny (fun x hx y hy => memH ys [] dy (by simp) wy rfl fy rfl x (by simp [hx]) y (by simp [hy]))
-        apply cross_lemma _ _ (by simp [ctorTag]) htag (by simp [equal, equalG, isTuple])
-        intro s s' h
-        simp [hashG, hfin, hatom, xorAttrs, hxor_nil_right] at h
-        obtain ⟨y, e, hy⟩ := xorList_single ys fy ay _ h.1.symm
-        subst e
-        exact atomOf_ne_mapC y (by simpa [fragList] using fy) _ _ hy
-      | _ =>
-        first
-          | (simp [frag] at fb; done)
-          | exact cross_lemma _ _ (by simp [ctorTag]) htag (by simp [equal, equalG, isTuple, equalAttrsIn, tupleNames])
-              (by intro s s'; simp [hashG, hfin, hatom, xorAttrs, hxor_nil_right])
+      obtain ⟨na, was, fas, das⟩ := gtuple_facts n as ha wa fa
+      have pm := fun s => gtuple_payload_mem as s na fas
+      by_cases hbt : isTuple b = true
+      · -- against any tuple: the name ↦ value maps
+        have hn : 0 < n ∨ as = [] := by
+          cases as with
+          | nil => exact Or.inr rfl
+          | cons p r => exact Or.inl (by have := das p (by simp); omega)
+        have HE : ∀ p, p ∈ as → ∀ q, q ∈ attrsOf b → (equal p.2 q.2 = true ↔ den p.2 = den q.2) := by
+          intro p hp q hq
+          have hn' : 0 < n := by have := das p hp; omega
+          obtain ⟨_, fq⟩ := attrsOf_facts n b hbt hb hn' wb fb
+          obtain ⟨dq, wq, fq'⟩ := fq q hq
+          exact (ih p.2 q.2 (das p hp) dq (wfAttrs_mem as p was hp) wq (fragAttrs_mem as p fas hp).2 fq').1
+        have nb : (namesOf (attrsOf b)).Nodup := by
+          cases b <;> simp [isTuple] at hbt <;> simp [attrsOf, namesOf]
+          case gtuple bs => exact (gtuple_facts n bs hb wb fb).1
+        have heq := gtuple_equal_iff as b hbt na nb HE
+        refine ⟨heq, ?_⟩
+        cases b with
+        | gtuple bs =>
+          obtain ⟨nbs, wbs, fbs, dbs⟩ := gtuple_facts n bs hb wb fb
+          intro _ _ s s'
+          have HH : ∀ p, p ∈ as → ∀ q, q ∈ bs → ∀ S S' : HV,
+              (hashG true p.2 S = hashG true q.2 S' ↔ (S = S' ∧ den p.2 = den q.2)) := by
+            intro p hp q hq
+            obtain ⟨pp, pf⟩ := fragAttrs_mem as p fas hp
+            obtain ⟨qp, qf⟩ := fragAttrs_mem bs q fbs hq
+            exact ihH p.2 q.2 (das p hp) (dbs q hq) (wfAttrs_mem as p was hp) (wfAttrs_mem bs q wbs hq) pf qf pp qp
+          simp only [hashG, hfin, hatom, if_true]
+          constructor
+          · intro h
+            simp at h
+            obtain ⟨h1, h2⟩ := h
+            subst h2
+            refine ⟨rfl, ?_⟩
+            have h1' : hxor (hatom "mapC" (.set []) s) (xorAttrs true as s) =
+                hxor (hatom "mapC" (.set []) s) (xorAttrs true bs s) := h1
+            rw [gtuple_payload as s na fas, gtuple_payload bs s nbs fbs] at h1'
+            exact (gtuple_core as bs s na nbs fas fbs HH).1 h1'
+          · rintro ⟨rfl, h⟩
+            have := (gtuple_core as bs s na nbs fas fbs HH).2 h
+            rw [← gtuple_payload as s na fas, ← gtuple_payload bs s nbs fbs] at this
+            simp only [hatom] at this
+            rw [this]
+        | charT j d =>
+          intro _ _ s s'
+          exact ⟨fun h => by simp [hashG, hfin, hatom] at h, fun h => absurd (htag h.2) (by simp [ctorTag])⟩
+        | byteT j d =>
+          intro _ _ s s'
+          exact ⟨fun h => by simp [hashG, hfin, hatom] at h, fun h => absurd (htag h.2) (by simp [ctorTag])⟩
+        | itemT j y => intro _ hq; simp [plain] at hq
+        | entryT k v => intro _ hq; simp [plain] at hq
+        | _ => simp [isTuple] at hbt
+      · -- against a non-tuple
+        have hbt' : isTuple b = false := by simpa using hbt
+        cases b with
+        | generic ys =>
+          obtain ⟨fy, ny, ney, _, wy, dy, py⟩ := generic_facts n ys hb wb fb
+          have ay := atoms_nodup ys fy py ny (fun x hx y hy =>
+            memH ys [] dy (by simp) wy rfl fy rfl py (by simp) x (by simp [hx]) y (by simp [hy]))
+          apply cross_lemma _ _ (by simp [ctorTag]) htag (by simp [equal, equalG, isTuple])
+          intro _ _ s s' h
+          simp only [hashG, hfin, hatom, if_true] at h
+          simp at h
+          have := pm s
+          rw [show hatom "mapC" (V.set []) s = [V.tup [("mapC", V.set []), ("seed", V.set s)]] from rfl, h.1] at this
+          obtain ⟨y, hy, e⟩ := xorList_mem_atom ys fy py ay _ this
+          exact atomAt_ne_mapC y (fragList_mem ys y fy hy) (py y hy) [] _ _ e
+        | array vs' off' c' =>
+          obtain ⟨fo, hh, _, _, _, _⟩ := array_facts n vs' off' c' hb wb fb
+          apply cross_lemma _ _ (by simp [ctorTag]) htag (by simp [equal, equalG, isTuple])
+          intro _ _ s s' h
+          simp only [hashG, hfin, hatom, if_true] at h
+          simp at h
+          have := pm s
+          rw [show hatom "mapC" (V.set []) s = [V.tup [("mapC", V.set []), ("seed", V.set s)]] from rfl, h.1,
+            xorOpts_eq_mk off' vs' s' fo, mem_mk] at this
+          obtain ⟨p, hp, e⟩ := List.mem_map.1 this
+          obtain ⟨pp, pf⟩ := fragOpts_mem vs' p.2 fo (idxItems_mem vs' off' p hp)
+          exact atomAt_ne_mapC p.2 pf pp _ _ _ e
+        | empty =>
+          apply cross_lemma _ _ (by simp [ctorTag]) htag (by simp [equal, equalG, isTuple])
+          intro _ _ s s' h
+          simp only [hashG, hfin, hatom, if_true] at h
+          simp at h
+          have := pm s
+          rw [show hatom "mapC" (V.set []) s = [V.tup [("mapC", V.set []), ("seed", V.set s)]] from rfl, h.1] at this
+          simp at this
+        | true_ =>
+          apply cross_lemma _ _ (by simp [ctorTag]) htag (by simp [equal, equalG, isTuple])
+          intro _ _ s s' h
+          simp only [hashG, hfin, hatom, if_true] at h
+          simp at h
+          have := pm s
+          rw [show hatom "mapC" (V.set []) s = [V.tup [("mapC", V.set []), ("seed", V.set s)]] from rfl, h.1] at this
+          simp [mapC] at this
+        | num y =>
+          exact cross_lemma _ _ (by simp [ctorTag]) htag (by simp [equal, equalG, isTuple])
+            (by intro _ _ s s'; simp [hashG, hfin, hatom])
+        | str r off h =>
+          exact cross_lemma _ _ (by simp [ctorTag]) htag (by simp [equal, equalG, isTuple])
+            (by intro _ _ s s'; simp [hashG, hfin, hatom])
+        | bytes r off =>
+          exact cross_lemma _ _ (by simp [ctorTag]) htag (by simp [equal, equalG, isTuple])
+            (by intro _ _ s s'; simp [hashG, hfin, hatom])
+        | dict m => simp [frag] at fb
+        | relation names rows => simp [frag] at fb
+        | union bs => simp [frag] at fb
+        | _ => simp [isTuple] at hbt'
     | generic xs =>
-      obtain ⟨fx, nx, nex, ntx, wx, dx⟩ := generic_facts n xs ha wa fa
-      have ax := atoms_nodup xs fx nx (fun x hx y hy => memH xs [] dx (by simp) wx rfl fx rfl x (by simp [hx]) y (by simp [hy]))
+      obtain ⟨fx, nx, nex, ntx, wx, dx, px⟩ := generic_facts n xs ha wa fa
+      have ax := atoms_nodup xs fx px nx (fun x hx y hy =>
+        memH xs [] dx (by simp) wx rfl fx rfl px (by simp) x (by simp [hx]) y (by simp [hy]))
       cases b with
       | generic ys =>
-        obtain ⟨fy, ny, ney, _, wy, dy⟩ := generic_facts n ys hb wb fb
-        obtain ⟨c1, c2⟩ := generic_core xs ys fx fy nx ny (memH xs ys dx dy wx wy fx fy)
-        have hne := xorList_ne_nil xs fx ax nex
+        obtain ⟨fy, ny, ney, _, wy, dy, py⟩ := generic_facts n ys hb wb fb
+        obtain ⟨c1, c2⟩ := generic_core xs ys fx fy px py nx ny (memH xs ys dx dy wx wy fx fy px py)
+        have hne := xorList_ne_nil xs fx px ax nex
         have hden : den (.generic xs) = den (.generic ys) ↔ mk (denList xs) = mk (denList ys) := by
           simp [den, V.mkSet]
-        refine ⟨?_, fun s s' => ?_⟩
+        refine ⟨?_, fun _ _ s s' => ?_⟩
         · rw [hden, ← c1]
           have hX : (xorList true xs).isEmpty = false := by
             cases hx : xorList true xs with
@@ -915,34 +1867,172 @@ theorem main_frag : ∀ (n : Nat) (a b : Rep), depth a < n → depth b < n → w
           constructor <;> (rintro ⟨h1, h2⟩; exact ⟨h2, h1⟩)
       | empty =>
         apply cross_lemma _ _ (by simp [ctorTag]) htag (by simp [equal, equalG])
-        intro s s' h
+        intro _ _ s s' h
         simp [hashG, hfin, hatom] at h
-        exact xorList_ne_nil xs fx ax nex h.1
+        exact xorList_ne_nil xs fx px ax nex h.1
       | true_ =>
         have hn : 0 < n := by simp only [depth] at ha; omega
-        have Hx := memH xs [.gtuple []] dx (by intro x hx; simp at hx; subst hx; simpa [depth] using hn) wx
-          (by simp [wfList, wf, wfAttrs, namesOf, specialisable]) fx (by simp [fragList, frag])
+        obtain ⟨u1, u2, u3, u4⟩ := unitFacts hn
+        have Hx := memH xs [.gtuple []] dx u1 wx u2 fx u3 px u4
         apply cross_lemma _ _ (by simp [ctorTag]) htag (by simp [equal, equalG])
-        intro s s' h
+        intro _ _ s s' h
         simp [hashG, hfin, hatom] at h
-        obtain ⟨y, e, hy⟩ := xorList_single xs fx ax _ h.1
+        obtain ⟨y, e, hy⟩ := xorList_single xs fx px ax _ h.1
         subst e
         have hfy : frag y = true := by simpa [fragList] using fx
         have h2 : hashG true y [] = hashG true (.gtuple []) [] := by
-          rw [hash_singleton y hfy, hy]; simp [hashG, hfin, hatom, xorAttrs, hxor_nil_right]
+          have hy' : atomAt y [] = _ := hy
+          rw [hash_singleton y hfy (px y (by simp)), hy']; simp [hashG, hfin, hatom, xorAttrs, hxor_nil_right]
         have := (Hx y (by simp) (.gtuple []) (by simp)).1 h2
         simp [den, denAttrs, V.mkTup] at this
         apply ntx; simp [denList, this]
       | gtuple bs =>
-        have e : bs = [] := by simpa [frag] using fb
-        subst e
+        obtain ⟨nb, _, fbs, _⟩ := gtuple_facts n bs hb wb fb
         apply cross_lemma _ _ (by simp [ctorTag]) htag (by simp [equal, equalG])
-        intro s s' h
-        simp [hashG, hfin, hatom, xorAttrs, hxor_nil_right] at h
-        obtain ⟨y, e, hy⟩ := xorList_single xs fx ax _ h.1
-        subst e
-        exact atomOf_ne_mapC y (by simpa [fragList] using fx) _ _ hy
+        intro _ _ s s' h
+        simp only [hashG, hfin, hatom, if_true] at h
+        simp at h
+        have := gtuple_payload_mem bs s' nb fbs
+        rw [show hatom "mapC" (V.set []) s' = [V.tup [("mapC", V.set []), ("seed", V.set s')]] from rfl, ← h.1] at this
+        obtain ⟨y, hy, e⟩ := xorList_mem_atom xs fx px ax _ this
+        exact atomAt_ne_mapC y (fragList_mem xs y fx hy) (px y hy) [] _ _ e
+      | array vs' off' c' =>
+        obtain ⟨fo, hh, _, _, _, _⟩ := array_facts n vs' off' c' hb wb fb
+        apply cross_lemma _ _ (by simp [ctorTag]) htag (by simp [equal, equalG])
+        intro _ _ s s' h
+        simp [hashG, hfin, hatom] at h
+        rw [xorOpts_eq_mk off' vs' s' fo] at h
+        -- member atoms of the generic set have seed [], array item atoms an index seed
+        cases hi : idxItems off' vs' with
+        | nil => exact idxItems_ne_nil off' vs' hh hi
+        | cons p r =>
+          have hm : atomAt p.2 (intSeed p.1 s') ∈ mk (arrAtoms off' vs' s') := by
+            rw [mem_mk]; simp [arrAtoms, hi]
+          rw [← h.1] at hm
+          obtain ⟨y, hy, e⟩ := xorList_mem_atom xs fx px ax _ hm
+          obtain ⟨pp, pf⟩ := fragOpts_mem vs' p.2 fo (idxItems_mem vs' off' p (by rw [hi]; simp))
+          have := atomAt_seed_inj y p.2 (fragList_mem xs y fx hy) (px y hy) pf pp _ _ e
+          simp [intSeed, hatom] at this
+      | _ => cross htag fb
+    | array vs off c =>
+      obtain ⟨fo, hh, hl, wo, hc, dv⟩ := array_facts n vs off c ha wa fa
+      cases b with
+      | array vs' off' c' =>
+        obtain ⟨fo', hh', hl', wo', hc', dv'⟩ := array_facts n vs' off' c' hb wb fb
+        have HH : ∀ x, some x ∈ vs → ∀ y, some y ∈ vs' → ∀ S S' : HV,
+            (hashG true x S = hashG true y S' ↔ (S = S' ∧ den x = den y)) := by
+          intro x hx y hy
+          obtain ⟨px, fx⟩ := fragOpts_mem vs x fo hx
+          obtain ⟨py, fy⟩ := fragOpts_mem vs' y fo' hy
+          exact ihH x y (dv x hx) (dv' y hy) (wfOpts_mem vs x wo hx) (wfOpts_mem vs' y wo' hy) fx fy px py
+        have HE : ∀ x, some x ∈ vs → ∀ y, some y ∈ vs' → (equal x y = true ↔ den x = den y) := by
+          intro x hx y hy
+          obtain ⟨_, fx⟩ := fragOpts_mem vs x fo hx
+          obtain ⟨_, fy⟩ := fragOpts_mem vs' y fo' hy
+          exact (ih x y (dv x hx) (dv' y hy) (wfOpts_mem vs x wo hx) (wfOpts_mem vs' y wo' hy) fx fy).1
+        -- the denotation determines offset and items
+        have hden : den (.array vs off c) = den (.array vs' off' c') ↔ (off = off' ∧ denOpts vs = denOpts vs') := by
+          rw [den_array, den_array]
+          constructor
+          · intro h
+            have h' : seqM "@item" off (denOpts vs) = seqM "@item" off' (denOpts vs') := by simpa using h
+            exact seqM_inj "@item" _ _ off off' (headSome_denOpts vs hh) (headSome_denOpts vs' hh')
+              (lastSome_noTrail _ (lastSome_denOpts vs hl)) (lastSome_noTrail _ (lastSome_denOpts vs' hl')) h'
+          · rintro ⟨rfl, h⟩; rw [h]
+        refine ⟨?_, fun _ _ s s' => ?_⟩
+        · rw [hden]
+          simp only [equal, equalG, Bool.and_eq_true, beq_iff_eq]
+          constructor
+          · rintro ⟨⟨⟨h1, h2⟩, _⟩, h4⟩
+            exact ⟨h2, (arrEq_iff vs vs' (by exact_mod_cast h1) HE).1 h4⟩
+          · rintro ⟨h1, h2⟩
+            have hlen : vs.length = vs'.length := by
+              have := congrArg List.length h2
+              rwa [denOpts_length, denOpts_length] at this
+            refine ⟨⟨⟨by exact_mod_cast hlen, h1⟩, ?_⟩, (arrEq_iff vs vs' hlen HE).2 h2⟩
+            rw [hc, hc', ← optCount_denOpts vs, ← optCount_denOpts vs', h2]
+        · simp only [hashG, hfin, hatom, if_true]
+          constructor
+          · intro h
+            simp at h
+            obtain ⟨h1, h2⟩ := h
+            subst h2
+            refine ⟨rfl, ?_⟩
+            rw [den_array, den_array]
+            exact congrArg _ ((array_core vs vs' off off' s fo fo' HH).1 h1)
+          · rintro ⟨rfl, h⟩
+            rw [den_array, den_array] at h
+            have h' : seqM "@item" off (denOpts vs) = seqM "@item" off' (denOpts vs') := by simpa using h
+            rw [(array_core vs vs' off off' s fo fo' HH).2 h']
+      | empty =>
+        apply cross_lemma _ _ (by simp [ctorTag]) htag (by simp [equal, equalG])
+        intro _ _ s s' h
+        simp [hashG, hfin, hatom] at h
+        rw [xorOpts_eq_mk off vs s fo] at h
+        have := (mk_eq_nil _).1 h.1
+        simp [arrAtoms] at this
+        exact idxItems_ne_nil off vs hh this
+      | true_ =>
+        apply cross_lemma _ _ (by simp [ctorTag]) htag (by simp [equal, equalG])
+        intro _ _ s s' h
+        simp [hashG, hfin, hatom] at h
+        rw [xorOpts_eq_mk off vs s fo] at h
+        cases hi : idxItems off vs with
+        | nil => exact idxItems_ne_nil off vs hh hi
+        | cons p r =>
+          have hm : atomAt p.2 (intSeed p.1 s) ∈ mk (arrAtoms off vs s) := by
+            rw [mem_mk]; simp [arrAtoms, hi]
+          rw [h.1] at hm
+          simp at hm
+          obtain ⟨pp, pf⟩ := fragOpts_mem vs p.2 fo (idxItems_mem vs off p (by rw [hi]; simp))
+          obtain ⟨t, q, e⟩ := atomAt_seed p.2 pf pp (intSeed p.1 s)
+          rw [e] at hm
+          simp [intSeed, hatom] at hm
+      | gtuple bs =>
+        obtain ⟨nb, _, fbs, _⟩ := gtuple_facts n bs hb wb fb
+        apply cross_lemma _ _ (by simp [ctorTag]) htag (by simp [equal, equalG])
+        intro _ _ s s' h
+        simp only [hashG, hfin, hatom, if_true] at h
+        simp at h
+        have := gtuple_payload_mem bs s' nb fbs
+        rw [show hatom "mapC" (V.set []) s' = [V.tup [("mapC", V.set []), ("seed", V.set s')]] from rfl, ← h.1,
+          xorOpts_eq_mk off vs s fo, mem_mk] at this
+        obtain ⟨p, hp, e⟩ := List.mem_map.1 this
+        obtain ⟨pp, pf⟩ := fragOpts_mem vs p.2 fo (idxItems_mem vs off p hp)
+        exact atomAt_ne_mapC p.2 pf pp _ _ _ e
+      | generic ys =>
+        obtain ⟨fy, ny, ney, _, wy, dy, py⟩ := generic_facts n ys hb wb fb
+        have ay := atoms_nodup ys fy py ny (fun x hx y hy =>
+          memH ys [] dy (by simp) wy rfl fy rfl py (by simp) x (by simp [hx]) y (by simp [hy]))
+        apply cross_lemma _ _ (by simp [ctorTag]) htag (by simp [equal, equalG])
+        intro _ _ s s' h
+        simp [hashG, hfin, hatom] at h
+        rw [xorOpts_eq_mk off vs s fo] at h
+        cases hi : idxItems off vs with
+        | nil => exact idxItems_ne_nil off vs hh hi
+        | cons p r =>
+          have hm : atomAt p.2 (intSeed p.1 s) ∈ mk (arrAtoms off vs s) := by
+            rw [mem_mk]; simp [arrAtoms, hi]
+          rw [h.1] at hm
+          obtain ⟨y, hy, e⟩ := xorList_mem_atom ys fy py ay _ hm
+          obtain ⟨pp, pf⟩ := fragOpts_mem vs p.2 fo (idxItems_mem vs off p (by rw [hi]; simp))
+          have := atomAt_seed_inj y p.2 (fragList_mem ys y fy hy) (py y hy) pf pp _ _ e
+          simp [intSeed, hatom] at this
       | _ => cross htag fb
     | _ => simp [frag] at fa
+
+
+/-- a canonical array is determined by its denotation (offset, hole pattern, item denotations) -/
+theorem array_den_inj (vs vs' : List (Option Rep)) (off off' c c' : Int)
+    (wa : wf (.array vs off c) = true) (wb : wf (.array vs' off' c') = true) :
+    den (.array vs off c) = den (.array vs' off' c') ↔ (off = off' ∧ denOpts vs = denOpts vs') := by
+  simp only [wf, Bool.and_eq_true] at wa wb
+  rw [den_array, den_array]
+  constructor
+  · intro h
+    have h' : seqM "@item" off (denOpts vs) = seqM "@item" off' (denOpts vs') := by simpa using h
+    exact seqM_inj "@item" _ _ off off' (headSome_denOpts vs wa.1.1.1) (headSome_denOpts vs' wb.1.1.1)
+      (lastSome_noTrail _ (lastSome_denOpts vs wa.1.1.2)) (lastSome_noTrail _ (lastSome_denOpts vs' wb.1.1.2)) h'
+  · rintro ⟨rfl, h⟩; rw [h]
 
 end Arrai.C02
